@@ -35,7 +35,7 @@ structure InvB3 (cfg : Cfg) (s : State) : Prop where
   h3 : none ∉ s.hq.dropLast
 
 theorem InvB3.init (cfg : Cfg) : InvB3 cfg (init cfg) := by
-  constructor <;> simp [Pipeline.init] <;> grind [List.getElem?_replicate, HPc.running]
+  constructor <;> simp [Pipeline.init] <;> grind [HPc.running]
 
 theorem InvB3.main {cfg : Cfg} {s s' : State} (hB : InvB1 cfg s) (h : InvB3 cfg s)
     (hs : MainStep cfg s s') : InvB3 cfg s' := by
@@ -80,7 +80,7 @@ theorem InvB3.janitor {cfg : Cfg} {s s' : State} (hB : InvB1 cfg s) (h : InvB3 c
   | pruneDrop h rest hj hr =>
     have := prunePc_cases rest
     have hr' := hasherRunning_false hr
-    constructor <;> grind [List.mem_erase_of_ne]
+    constructor <;> grind
   | spinRestart h rest hj hr =>
     have := spinPc_cases s.tracked
     constructor <;> grind
